@@ -148,6 +148,9 @@ class Evaluator(object):
         self.events = []
         self.tyenv = {}
         self.names = {}
+        self.mutated = {}
+        self._mut_cache = {}
+        self._frozen = 0
 
     # ------------------------------------------------------------------ events
     def emit(self, kind, term, node, guards, fn, chain, **kw):
@@ -163,6 +166,36 @@ class Evaluator(object):
         fn = self.fns[path]
         env = {}
         params = fn.get('params', [])
+        saved_mut = self.mutated
+        self.mutated = dict(self.mutated_locals(path, fn))
+        for i, prm in enumerate(params):
+            # a parameter the caller names keeps that name (it is an opaque variable anyway)
+            if prm.get('k') == 'Bind' and arg_terms is not None and i < len(arg_terms) and arg_terms[i] is not None and arg_terms[i][0] == 'var':
+                self.mutated.pop(prm['id'], None)
+        try:
+            return self._run_fn(fn, path, params, env, arg_terms, guards, chain)
+        finally:
+            self.mutated = saved_mut
+
+    def mutated_locals(self, path, fn):
+        """Locals that are re-assigned, or handed out as `&mut local`, somewhere in the body
+        (loop-carried / mutable state): their initialiser must not be substituted for later reads.
+        Returns {local id: positional name} -- names are positional so that renaming a local
+        does not change any term."""
+        if path in self._mut_cache:
+            return self._mut_cache[path]
+        ids = set()
+        for n in H.walk(fn.get('hir', {})):
+            k = n.get('k')
+            if k in ('Assign', 'AssignOp') and n['l'].get('k') == 'Local':
+                ids.add(n['l']['id'])
+            if k == 'AddrOf' and n.get('mut') and n['e'].get('k') == 'Local' and not n['e'].get('ty', '').startswith('&'):
+                ids.add(n['e']['id'])
+        out = {lid: '$m%d' % i for i, lid in enumerate(sorted(ids))}
+        self._mut_cache[path] = out
+        return out
+
+    def _run_fn(self, fn, path, params, env, arg_terms, guards, chain):
         for i, p in enumerate(params):
             val = None
             if arg_terms is not None and i < len(arg_terms):
@@ -174,6 +207,15 @@ class Evaluator(object):
         k = pat.get('k')
         if k == 'Bind':
             self.names[pat['id']] = pat['name']
+            if pat['id'] in self.mutated:
+                nm = self.mutated[pat['id']]
+                self.names[pat['id']] = nm
+                if val is not None and not (val[0] == 'var' and val[2] == pat['id']):
+                    self.emit('snapshot', val, None, (), None, (), lhs=('var', nm, pat['id']))
+                env[pat['id']] = ('var', nm, pat['id'])
+                if pat.get('sub'):
+                    self.bind_pat(pat['sub'], val, env)
+                return
             env[pat['id']] = val if val is not None else ('var', pat['name'], pat['id'])
             if pat.get('sub'):
                 self.bind_pat(pat['sub'], val, env)
@@ -218,9 +260,11 @@ class Evaluator(object):
             return
         for lid, t in list(env.items()):
             if t is not None and reads_place(t, place):
-                nm = self.names.get(lid, 'local%s' % lid)
-                if t == ('var', nm, lid) or (t[0] == 'var' and t[1] == nm):
+                if t[0] == 'var':
                     continue
+                nm = '$s%d' % self._frozen
+                self._frozen += 1
+                self.names[lid] = nm
                 self.emit('snapshot', t, node, guards, fn, chain, lhs=('var', nm, lid))
                 env[lid] = ('var', nm, lid)
 
@@ -239,7 +283,6 @@ class Evaluator(object):
                 pat = s['pat']
                 if pat.get('k') == 'Bind' and 'Mut' in pat.get('mode', '') and val is not None and val[0] == 'call' and len(val[2]) == 0:
                     # `let mut x = T::new()`: a fresh mutable object keeps its own identity
-                    self.names[pat['id']] = pat['name']
                     self.emit('snapshot', val, s, guards, fn, chain, lhs=('var', pat['name'], pat['id']))
                     val = None
                 self.bind_pat(s['pat'], val, env)
@@ -302,7 +345,7 @@ class Evaluator(object):
             if node.get('mut') and inner.get('k') == 'Local' and not inner.get('ty', '').startswith('&'):
                 # `&mut local` handed out: the callee may overwrite the value; later reads are opaque
                 v = self.eval(inner, env, guards, fn, chain)
-                env[inner['id']] = ('var', inner['name'], inner['id'])
+                env[inner['id']] = ('var', self.names.get(inner['id'], inner['name']), inner['id'])
                 return v
             return self.eval(inner, env, guards, fn, chain)
         if k == 'Unary' and node.get('op') == 'Deref':
